@@ -222,6 +222,86 @@ static B shared(G &g, const B &t, int kinds)
     }
 }
 
+
+// Expressions with unevaluated Derivative / Subs nodes, built *structurally* (the generator never calls the
+// library's diff or subs: a defect there must not be able to hang or crash the generator).
+static B binder_term(G &g, int kinds)
+{
+    static const char *fn[] = {"f", "g", "h"};
+    int ar = 1 + (int)g.r.below(3);
+    vec_basic args;
+    for (int i = 0; i < ar; i++)
+        args.push_back(g.r.coin() ? gsym(g) : (g.r.coin() ? simple_arg(g) : gexpr(g, 1, kinds)));
+    int i = (int)g.r.below(ar);
+    std::string nm = fn[ar - 1];
+    int order = 1 + (int)g.r.below(2);
+    // a plain symbol that occurs in no other argument: the library writes Derivative(f(.., s, ..), s), never a Subs
+    bool alone = is_a<Symbol>(*args[i]);
+    for (int k = 0; k < ar && alone; k++)
+        if (k != i && has_symbol(*args[k], *rcp_static_cast<const Symbol>(args[i])))
+            alone = false;
+    if (alone) {
+        multiset_basic ms;
+        for (int k = 0; k < order; k++)
+            ms.insert(args[i]);
+        return Derivative::create(function_symbol(nm, args), ms); // throws unless canonical
+    }
+    vec_basic a2 = args;
+    multiset_basic ms;
+    map_basic_basic m;
+    B xi = symbol("_xi_" + std::to_string(i + 1));
+    a2[i] = xi;
+    m[xi] = args[i];
+    for (int k = 0; k < order; k++)
+        ms.insert(xi);
+    if (ar >= 2 && g.r.coin(1, 3) && !is_a<Symbol>(*args[(i + 1) % ar])) {
+        int j = (i + 1) % ar;
+        B xj = symbol("_xi_" + std::to_string(j + 1));
+        m[xj] = args[j];
+        a2[j] = xj;
+        ms.insert(xj);
+    }
+    return make_rcp<const Subs>(Derivative::create(function_symbol(nm, a2), ms), m);
+}
+
+// the mixed second derivative of g(s, s): Subs(Derivative(g(_xi_1, _xi_2), _xi_1, _xi_2), (_xi_1, _xi_2), (s, s))
+static B binder_same_point(G &g)
+{
+    B s = gsym(g);
+    B x1 = symbol("_xi_1"), x2 = symbol("_xi_2");
+    multiset_basic ms;
+    ms.insert(x1);
+    ms.insert(x2);
+    map_basic_basic m;
+    m[x1] = s;
+    m[x2] = s;
+    if (g.r.coin())
+        return make_rcp<const Subs>(Derivative::create(function_symbol("g", vec_basic{x1, x2}), ms), m);
+    return make_rcp<const Subs>(
+        Derivative::create(function_symbol("h", vec_basic{add(gsym(g), integer(-3)), x1, x2}), ms), m);
+}
+
+static B binder_expr(G &g, int kinds)
+{
+    vec_basic terms;
+    int n = 1 + (int)g.r.below(3);
+    for (int k = 0; k < n; k++) {
+        for (int attempt = 0; attempt < 6; attempt++) {
+            try {
+                B t = g.r.coin(1, 12) ? binder_same_point(g) : binder_term(g, kinds);
+                terms.push_back(g.r.coin() ? mul(t, gexpr(g, 1, kinds)) : t);
+                break;
+            } catch (const std::exception &) {
+            }
+        }
+    }
+    if (terms.empty())
+        return function_symbol("f", symbol("x"));
+    if (g.r.coin(1, 4))
+        terms.push_back(gexpr(g, 2, kinds));
+    return add(terms);
+}
+
 // all subterms reachable through get_args(), preorder
 static void subterms(const B &e, vec_basic &out)
 {
